@@ -20,7 +20,8 @@ import c01gen as G
 
 LEVEL = "proof"
 NS = "Adept.Expr."
-REQUIRED = ["C01_unary_table_sound", "C01_bin_partials", "C01_grad_linear", "C01_grad_hasDerivAt"]
+REQUIRED = ["C01_unary_table_sound", "C01_store_stored", "C01_store_frame", "C01_mul_linear", "C01_grad_linear",
+            "C01_bin_partials", "C01_grad_hasDerivAt", "C01_program_tangent", "C01_adjoint_is_gradient", "C01_values_plain"]
 EPS = 2.0 ** -52
 TRANSLATE = os.path.join(vbuild.VERIF, "translate")
 
@@ -377,12 +378,21 @@ def run(ctx, replay):
             ctx.violation("model and implementation disagree on a generated program (%s) but the independent oracle accepts "
                           "the implementation's values and gradients" % pnd["first_difference"]["why"], pnd, tag="c", no_input=True)
     if fails and not ctx.violations:
-        ctx.violation("proof obligation of C01 no longer checks: " + fails[0][:600],
+        ctx.violation("proof obligation of C01 no longer checks: " + first_error(fails[0]),
                       {"kind": "proof", "theorem": "AdeptProofs/Props/C01.lean", "failures": [f[:3000] for f in fails]},
                       tag="p", no_input=True)
     elif fails:
-        ctx.notes["proof_failures"] = [f[:1500] for f in fails]
-        print("# proof/translation gate also failed: " + fails[0][:300].replace("\n", " "))
+        ctx.notes["proof_failures"] = [f[-3000:] for f in fails]
+        print("# proof/translation gate also failed: " + first_error(fails[0]))
+
+
+def first_error(text):
+    """the first `error:` lines of a lake log (or the head of the text)"""
+    errs = re.findall(r"error: ([^\n]*(?:\n(?!error:|warning:|info:|trace:)[^\n]*){0,6})", text)
+    errs = [e for e in errs if not e.startswith("Lean exited") and not e.startswith("build failed")]
+    if errs:
+        return " || ".join(" ".join(e.split())[:400] for e in errs[:2])
+    return " ".join(text.split())[:600]
 
 
 def detuple(x):
